@@ -127,8 +127,21 @@ class Pipe:
             # partitioned: keep the item, come back at heal time
             loop.call_at(self.hold_until, self._arrive, context=self.rx.context)
             return
+        hops = self.conn.net.arrive_hops(self.conn, self.name) if self.conn.net.arrive_hops else 0
+        if hops > 0:
+            # iteration-relative placement inside one virtual instant (plan trigger "plus_iter")
+            self._hop(hops)
+            return
         item = self.queue.popleft()
         self.rx._on_item(item, self)
+
+    def _hop(self, n):
+        if n > 0:
+            self.conn.net.loop.call_soon(self._hop, n - 1, context=self.rx.context)
+            return
+        if self.queue:
+            item = self.queue.popleft()
+            self.rx._on_item(item, self)
 
 
 class Conn:
@@ -453,6 +466,7 @@ class Net:
         self.fired = collections.Counter()
         self.bind_fail: set[tuple[str, int]] = set()
         self.connect_hook = None
+        self.arrive_hops = None   # fn(conn, direction) -> extra loop iterations before delivery
         self._label_counts = collections.Counter()
         self._bound: dict[tuple[str, int], Listener] = {}
         self.connect_attempts: list[tuple] = []
@@ -548,7 +562,6 @@ class Net:
         if node is None:
             raise RuntimeError("create_connection outside of a simulated host")
         dst = self.resolve(host)
-        self._label_counts[(node.name, host, port)] += 0
         attempt = {'src': node.name, 'dst': dst.name if dst else host, 'ip': host, 'port': port, 'time': loop.time()}
         self.connect_attempts.append(attempt)
         outcome = None
@@ -569,6 +582,8 @@ class Net:
             await asyncio.sleep(delay)
         else:
             await asyncio.sleep(0)
+        for _ in range(attempt.get('hops', 0)):
+            await asyncio.sleep(0)   # iteration-relative placement inside one virtual instant
         if kind == 'unreachable':
             self.fired['connect_unreachable'] += 1
             raise OSError(errno.EHOSTUNREACH, f"Connect call failed ({host!r}, {port})")
@@ -596,10 +611,16 @@ class Net:
         conn.a, conn.b = a, b
         for tap in self.taps:
             tap.on_connect(conn)
-        # the server learns about the connection one trip after the client
-        conn.c2s.push(('made', listener))
         protocol = protocol_factory()
         a._protocol = protocol
+        if kind == 'accept_reset':
+            # RST lands together with the end of the handshake (e.g. forwarded port, dead service)
+            protocol.connection_made(a)
+            conn.b._closed = True
+            conn.reset('rst_on_connect')
+            return a, protocol
+        # the server learns about the connection one trip after the client
+        conn.c2s.push(('made', listener))
         protocol.connection_made(a)
         return a, protocol
 
